@@ -351,6 +351,22 @@ def check_case(shape, values, tier, deep=True):
                                                                    f'{w2[:24].hex()}.. ({len(w2)} B, encoded_length {n2}), the values now give {r2[:24].hex()}.. ({len(r2)} B)')
             except Exception as e:  # noqa
                 bad(f'encode-raises:{type(e).__name__}|changed-in-place:{f["k"]}', f'{e!r}')
+    # ... or the application assigns a list while it is still empty, lets the model be sized once, and fills the list afterwards
+    for f in shape:
+        v = values.get(f['n'])
+        if f['k'] == 'rep' and f['e']['k'] in ('uint', 'bytes') and v:
+            try:
+                kept = []
+                m3 = make_instance(shape, dict(values, **{f['n']: []}), cls)
+                setattr(m3, f['n'], kept)
+                m3.encoded_length()
+                kept.extend(to_lib(f, v))
+                w3 = bytes(m3.encode())
+                if w3 != ref:
+                    bad('encode-bytes|list-filled-after-first-use', f'a list assigned empty to field {f["n"]}, then filled through the reference the application kept, '
+                                                                    f'encodes to {w3[:24].hex()}.. ({len(w3)} B), the values give {ref[:24].hex()}.. ({len(ref)} B)')
+            except Exception as e:  # noqa
+                bad(f'encode-raises:{type(e).__name__}|list-filled-after-first-use', f'{e!r}')
     want = norm_values(shape, values)
     try:
         # what encode() itself returns (a writable buffer) must be readable as it is
